@@ -65,6 +65,59 @@ def check_partition(du, acc, size, cap, n, extra, zero_rich, rng):
     acc.count("parse.by_size")
     if got != ids:
         acc.violation(sigbase + ":parse-by-size", f"parse(partition(ids)) != ids (got {len(got)} of {len(ids)})", case)
+        return
+    # the caller owns what a call returns: scribbling on one answer must not change the answer to the same question
+    # asked again (with the very same block object and with an equal copy of it)
+    if blocks:
+        acc.count("parse.repeat_after_scribble")
+        try:
+            for b in blocks:
+                r = du.parse_identifiers_from_block_given_identifier_size(b, size)
+                if isinstance(r, list):
+                    r.append(b"\xee" * size)
+                    r.reverse()
+            again = []
+            for j, b in enumerate(blocks):
+                again.extend(du.parse_identifiers_from_block_given_identifier_size(b if j % 2 else bytes(bytearray(b)), size))
+            if again != ids:
+                acc.violation(sigbase + ":parse-repeat-differs",
+                              f"parsing the same blocks again, after the caller changed the lists returned the first "
+                              f"time, gives {len(again)} identifiers instead of the {len(ids)} stored", case)
+                return
+            if isinstance(blocks, list):
+                first = du.partition_identifiers_to_blocks(list(ids), cap, size, block_size_bytes=block_size)
+                if isinstance(first, list):
+                    first.append(b"junk")
+                    second = list(du.partition_identifiers_to_blocks(list(ids), cap, size, block_size_bytes=block_size))
+                    if second != blocks:
+                        acc.violation(sigbase + ":partition-repeat-differs",
+                                      "partitioning the same identifiers again gives different blocks after the "
+                                      "caller changed the first answer", case)
+                        return
+        except Exception as e:
+            acc.violation(sigbase + ":repeat-raised:" + exc_site(e), f"{type(e).__name__}: {e}", case)
+            return
+    # identifiers / blocks handed over in caller-owned bytearrays: refusing the type is fine, a wrong answer or a
+    # changed buffer is not
+    if n and rng.random() < 0.15:
+        acc.count("partition.bytearray_inputs")
+        bufs = [bytearray(i) for i in ids]
+        try:
+            bl = list(du.partition_identifiers_to_blocks(bufs, cap, size, block_size_bytes=block_size))
+            if [bytes(x) for x in bufs] != ids:
+                acc.violation(sigbase + ":buffer-mutated", "partition changed a caller-owned bytearray identifier", case)
+            elif [bytes(x) for x in bl] != [bytes(x) for x in blocks]:
+                acc.violation(sigbase + ":bytearray-differs", "blocks built from bytearray identifiers differ", case)
+            else:
+                bb = [bytearray(x) for x in blocks]
+                g = []
+                for x in bb:
+                    g.extend(bytes(y) for y in du.parse_identifiers_from_block_given_identifier_size(x, size))
+                if g != ids or [bytes(x) for x in bb] != [bytes(x) for x in blocks]:
+                    acc.violation(sigbase + ":bytearray-differs", "parsing bytearray blocks gives a different answer "
+                                                                  "or changes the buffer", case)
+        except (TypeError, ValueError):
+            acc.count("partition.bytearray_refused")
     if block_size // cap == size:
         got2 = []
         try:
@@ -102,6 +155,14 @@ def check_split(bu, acc, rng):
         acc.violation(f"split:concat:{zclass}", "concat(split(x)) != x", case)
     if [len(p) for p in pieces] != lens:
         acc.violation(f"split:piece-lengths:{zclass}", f"piece lengths {[len(p) for p in pieces]} != {lens}", case)
+    elif isinstance(pieces, list):
+        keep = list(pieces)
+        pieces.append(b"junk")
+        lens2 = list(lens)
+        again = bu.split_bytes_given_slice_len(x, lens2)
+        if list(again) != keep or lens2 != lens:
+            acc.violation("split:repeat-differs", "splitting the same string again gives another answer after the caller "
+                                                  "changed the first one (or the length vector was changed)", case)
     # mismatching length vector must be refused
     delta = rng.choice([-2, -1, 1, 2, 7])
     bad = list(lens) + [max(0, delta)] if delta > 0 else list(lens)
@@ -175,7 +236,8 @@ def check_database_conversion(du, bu, acc, rng):
     db_json, want = {}, {}
     fmt = rng.choice(["hex", "int", "utf8", "raw"])
     for i in range(nk):
-        kw = rng.choice(["kw", "ключ", "键", "a b", "é", "K"]) + str(i) + rng.choice(["", "x", "é"])
+        kw = rng.choice(["kw", "ключ", "键", "a b", "é", "K", "re\u0301sume\u0301", "\u2126", "\u212b", "\uf900",
+                         "\u1112\u1161\u11ab", "\ufb01", "I\u0307"]) + str(i) + rng.choice(["", "x", "é", "e\u0301"])
         ids = []
         for _ in range(rng.randint(1, 5)):
             if fmt == "utf8":
@@ -194,7 +256,9 @@ def check_database_conversion(du, bu, acc, rng):
         acc.violation("dbconv:raised", f"{type(e).__name__}: {e}", {"db": db_json})
         return
     if list(db.keys()) != [k.encode("utf8") for k in db_json]:
-        acc.violation("dbconv:keywords", "keywords are not the UTF-8 encodings in order", {"db": db_json})
+        acc.violation("dbconv:keywords", "keywords are not the UTF-8 encodings (as written in the JSON file) in order",
+                      {"db": db_json})
+        return
     for kw, ids in db_json.items():
         got = db[kw.encode("utf8")]
         for h, b in zip(ids, got):
@@ -245,6 +309,11 @@ def run_shard(spec, acc, ctx):
             if ctx.out_of_time():
                 acc.note("grid stopped early at size %d" % size)
                 break
+        # block sizes far beyond the data (every block still has the same, requested length)
+        for size, cap, n in ((8, 4, 10), (1, 1, 3), (16, 3, 7), (4, 64, 65), (40, 70, 1)):
+            for extra in (65535, 65536, 65537, 100000, (1 << 17) + 1, (1 << 20) + 3):
+                check_partition(du, acc, size, cap, n, extra, False, rng)
+                acc.count("partition.huge_block_sizes")
         try:
             list(du.partition_identifiers_to_blocks([b"ab"], 2, 2, block_size_bytes=3))
             acc.violation("partition:small-block-accepted", "block smaller than cap*size accepted", {})
@@ -261,6 +330,9 @@ def run_shard(spec, acc, ctx):
         n = rng.choice([rng.randint(0, 12), rng.randint(0, 300), cap * rng.randint(0, 4) + rng.choice([-1, 0, 1])])
         n = max(0, min(300, n))
         extra = rng.choice([0, 0, 1, rng.randint(0, 2 * size), cap])
+        if i % 97 == 5:
+            extra = rng.choice([65535, 65536, 65537, rng.randint(60000, 140000)])
+            n = min(n, 6)
         check_partition(du, acc, size, cap, n, extra, rng.random() < 0.6, rng)
         for name, fn in (("split", lambda: check_split(bu, acc, rng)), ("int", lambda: check_ints(bu, acc, rng)),
                          ("xor", lambda: check_xor_pad(bu, acc, rng))) + \
